@@ -16,10 +16,15 @@ MOD = "btmc.props.c05"
 CAP = 1.0e7  # enough cash in the parent for every request of the grid
 
 
+def spread2(spread):
+    """the spread of the third date: the price is unchanged, the spread is not"""
+    return None if spread is None else (0.25 if spread == 0.0 else spread * 0.5)
+
+
 def _tree(p, m, spread, fee, integer, p_prev=None):
     bt = rt.bt()
-    idx = pd.DatetimeIndex(["2020-01-01", "2020-01-02"])
-    data = pd.DataFrame({"x": [p if p_prev is None else p_prev, p]}, index=idx, dtype=float)
+    idx = pd.DatetimeIndex(["2020-01-01", "2020-01-02", "2020-01-03"])
+    data = pd.DataFrame({"x": [p if p_prev is None else p_prev, p, p]}, index=idx, dtype=float)
     root = bt.Strategy("r", [], [bt.Security("x", multiplier=m)])
     root.use_integer_positions(integer)
     spy = None
@@ -28,7 +33,7 @@ def _tree(p, m, spread, fee, integer, p_prev=None):
         root.set_commissions(spy)
     kw = {}
     if spread is not None:
-        kw["bidoffer"] = pd.DataFrame({"x": [float(spread)] * 2}, index=idx)
+        kw["bidoffer"] = pd.DataFrame({"x": [float(spread), float(spread), float(spread2(spread))]}, index=idx)
     root.setup(data, **kw)
     root.adjust(CAP)
     root.update(idx[0])
@@ -181,14 +186,33 @@ def grid_case(item):
         j = judge(obs, pos, amount, p, m, spread, feename, integer)
         if j is not None:
             viols.append({"rule": j[0], "expected": j[1], "observed": obs, "sig": sig_of(obs, pos, amount, p, m, spread, feename, integer), "point": [p, m, spread, feename, integer, pos, amount]})
+    # the next date: same price, another spread - the same requests are sized again on the same tree
+    if spread is not None and p == p and p != 0.0:
+        s2 = spread2(spread)
+        try:
+            root.update(root.data.index[2])
+            for amount in ams[::6]:
+                obs = evaluate(root, pos, amount, p, m, s2, feename, integer)
+                n += 1
+                j = judge(obs, pos, amount, p, m, s2, feename, integer)
+                if j is not None:
+                    viols.append({"rule": j[0], "expected": j[1], "observed": obs, "sig": "d3|" + sig_of(obs, pos, amount, p, m, s2, feename, integer), "point": [p, m, spread, feename, integer, pos, amount, "date3"]})
+        except Exception as e:
+            viols.append({"rule": "crash", "observed": rt.describe(e), "point": [p, m, spread, feename, integer, pos, None, "date3"]})
     return (n, nontrivial, viols, indomain)
 
 
 def replay(case):
-    p, m, spread, feename, integer, pos, amount = case["point"]
+    pt = case["point"]
+    p, m, spread, feename, integer, pos, amount = pt[:7]
     if p is None:
         p = float("nan")
     root, spy = _tree(p, m, spread, feename, integer, p_prev=1.0 if (p != p or p == 0.0) else None)
+    if len(pt) > 7:
+        # third date: the same request was sized on the second date first
+        evaluate(root, pos, amount, p, m, spread, feename, integer)
+        root.update(root.data.index[2])
+        spread = spread2(spread)
     obs = evaluate(root, pos, amount, p, m, spread, feename, integer)
     j = judge(obs, pos, amount, p, m, spread, feename, integer)
     if j is None:
@@ -200,7 +224,9 @@ def replay(case):
 def _k1(v):
     """integer sizing: a negative amount worth less than one unit on a flat or short position
     trades nothing (the stated rule wants one unit sold); matches only that exact outcome"""
-    p, m, spread, feename, integer, pos, amount = v["case"]["point"]
+    p, m, spread, feename, integer, pos, amount = v["case"]["point"][:7]
+    if len(v["case"]["point"]) > 7:
+        spread = spread2(spread)
     obs = v["observed"]
     if not integer or "raised" in obs or v.get("rule") != "largest_affordable":
         return False
@@ -210,17 +236,17 @@ def _k1(v):
 def grid(tier, seed):
     nan = float("nan")
     if tier == "quick":
-        prices = [1.0, 2.5, 10.0, 100.0] if seed % 2 == 0 else [2.0, 2.5, 10.0, 101.37]
+        prices = [1.0, 2.5, 10.0, 100.0, 10.1] if seed % 2 == 0 else [2.0, 2.5, 10.0, 101.37, 10.1]
         mults = [1.0, 2.0]
-        poss = [0.0, 3.0, -3.0, 10.0, -10.0]
+        poss = [0.0, 3.0, -3.0, 10.0, -10.0, 7.0, -7.0]
         amounts = [x * 0.5 for x in range(-80, 81)] + [1000000.0, -1000000.0, 65536.25, -123456.5]
         spreads = [None, 0.5]
         fees = [None, "flat", "prop", "pershare", "maxflat"]
         modes = [True, False]
     else:
-        prices = [1.0, 2.0, 2.5, 10.0, 100.0, 3.3, 0.7, 101.37]
+        prices = [1.0, 2.0, 2.5, 10.0, 100.0, 3.3, 0.7, 101.37, 10.1, 9.99]
         mults = [1.0, 2.0, 10.0]
-        poss = [0.0, 3.0, -3.0, 10.0, -10.0, 3.5, -3.5, 1.0, -1.0, 25.0]
+        poss = [0.0, 3.0, -3.0, 10.0, -10.0, 3.5, -3.5, 1.0, -1.0, 25.0, 7.0, -7.0]
         amounts = [x * 0.25 for x in range(-320, 321)] + [1000.0, -1000.0, 12345.67, -999.99, 1000000.0, -1000000.0, 65536.25, -123456.5]
         spreads = [None, 0.0, 0.5, 0.25]
         fees = [None, "flat", "prop", "pershare", "maxflat", "propdec", "mixdec"]
